@@ -581,7 +581,7 @@ def removeFire (v : Variant) (s : Reg) (n : Name) : Reg × Out :=
   | some i =>
     if i.kind ≠ .junction then (s, .error)
     else match firePat i with
-      | none => (s, .ok)
+      | none => (s, if hasFire i then .error else .ok)   -- a 'Fire_Flow' entry whose pattern was set to None: AttributeError
       | some p =>
         if inUse (fireDrop v s n p i) .pattern p then (fireDrop v s n p i, if v.fireKeepsShared then .ok else .refused)
         else ((removePattern (fireDrop v s n p i) p).1, .ok)
